@@ -425,6 +425,62 @@ pub fn run(ctx: &'static Ctx) {
             }
         };
         let tail = || vec![SOp::AppendU8(0xa5), SOp::WriteU8(36, 0x11), SOp::SinkByte(0x5a), SOp::AppendSlice(vec![1, 2, 3]), SOp::WriteU32(4, 0), SOp::AppendU16(0xbeef), SOp::UpdateChecksum, SOp::SinkQword(0x0102_0304_0506_0708)];
+        // values (the value principle): every typed append / sink / write with its value over util::value_set (bytes: all
+        // 256; words thorough: all 65536), writes at four offsets of a 64-byte table, each followed by the small tail
+        {
+            let q = ctx.quick();
+            let v8: Vec<u64> = (0..256).collect();
+            let v16 = crate::util::value_set(16, 0x0201, q);
+            let v32 = crate::util::value_set(32, 0x0403_0201, q);
+            let v64 = crate::util::value_set(64, 0x0807_0605_0403_0201, q);
+            let mut progs: Vec<(String, SOp)> = vec![];
+            for v in &v8 {
+                let v = *v as u8;
+                progs.push((format!("append_u8 {:#x}", v), SOp::AppendU8(v)));
+                progs.push((format!("sink byte {:#x}", v), SOp::SinkByte(v)));
+                for o in [9usize, 10, 36, 63] {
+                    progs.push((format!("write_u8 {:#x} at {}", v, o), SOp::WriteU8(o, v)));
+                }
+            }
+            for v in &v16 {
+                let v = *v as u16;
+                progs.push((format!("append_u16 {:#x}", v), SOp::AppendU16(v)));
+                progs.push((format!("sink word {:#x}", v), SOp::SinkWord(v)));
+                for o in [10usize, 36, 37, 62] {
+                    progs.push((format!("write_u16 {:#x} at {}", v, o), SOp::WriteU16(o, v)));
+                }
+                progs.push((format!("write GenericAddress io {:#x} at 40", v), SOp::WriteGa(40, v)));
+            }
+            for v in &v32 {
+                let v = *v as u32;
+                progs.push((format!("append_u32 {:#x}", v), SOp::AppendU32(v)));
+                progs.push((format!("sink dword {:#x}", v), SOp::SinkDword(v)));
+                for o in [10usize, 36, 37, 60] {
+                    progs.push((format!("write_u32 {:#x} at {}", v, o), SOp::WriteU32(o, v)));
+                }
+            }
+            for v in &v64 {
+                progs.push((format!("append_u64 {:#x}", v), SOp::AppendU64(*v)));
+                progs.push((format!("sink qword {:#x}", v), SOp::SinkQword(*v)));
+                progs.push((format!("append GenericAddress mmio {:#x}", v), SOp::AppendGa(*v)));
+                progs.push((format!("append_slice of {:#x}", v), SOp::AppendSlice(v.to_le_bytes().to_vec())));
+                progs.push((format!("sink vec of {:#x}", v), SOp::SinkVec(v.to_le_bytes().to_vec())));
+                for o in [10usize, 36, 37, 56] {
+                    progs.push((format!("write_u64 {:#x} at {}", v, o), SOp::WriteU64(o, *v)));
+                    progs.push((format!("write_bytes of {:#x} at {}", v, o), SOp::WriteBytes(o, v.to_le_bytes().to_vec())));
+                }
+            }
+            let steps0: u64 = progs
+                .par_iter()
+                .map(|(name, op)| {
+                    let mut ops = vec![op.clone()];
+                    ops.extend(tail());
+                    lock(format!("value: {}", name), 64, ops, 1) + lock(format!("value after growth: {}", name), 36, vec![SOp::AppendU32(0x0101_0101), SOp::AppendU32(0), op.clone(), SOp::AppendU8(1)].into_iter().filter(|o| !matches!(o, SOp::WriteU8(..) | SOp::WriteU16(..) | SOp::WriteU32(..) | SOp::WriteU64(..) | SOp::WriteBytes(..) | SOp::WriteGa(..))).collect(), 1)
+                })
+                .sum();
+            ctx.tr(steps0);
+            ctx.engine("E3.value-programs", json!({"programs": 2 * progs.len(), "value_set_sizes": {"u8": 256, "u16": v16.len(), "u32": v32.len(), "u64": v64.len()}, "write_offsets": [9, 10, 36, 37, 56, 60, 62, 63]}));
+        }
         let sizes: Vec<usize> = (0..=1100usize).chain([2047, 2048, 2049, 4095, 4096, 4097, 8192, 16_384, 32_768, 65_499, 65_500, 65_535, 65_536, 65_537, 70_000, 300_000]).collect();
         let steps: u64 = sizes
             .par_iter()
